@@ -4,6 +4,7 @@ import (
 	"fmt"
 	"go/token"
 	"go/types"
+	"sort"
 	"strings"
 
 	"golang.org/x/tools/go/ssa"
@@ -19,6 +20,7 @@ type pathItem struct {
 	kind string // atom or event name
 	val  string // for atoms: "T"/"F"; for events: qualifier
 	in   ssa.Instruction
+	aux  ssa.Value // events about a context: the context value, resolved at the point of the path
 }
 
 func (p pathItem) String() string {
@@ -76,6 +78,14 @@ type pathEnum struct {
 	// then nil-tests of the destination are allocation checks, not absence.
 	inputMode     bool
 	inputModeDone bool
+	// inlining state
+	trail     []trailEntry
+	headers   map[*ssa.Function]map[*ssa.BasicBlock]bool
+	decided   map[ssa.Value]bool // stripped condition value -> its value on the current path
+	escaped   map[*ssa.Function]bool
+	inlined   map[*ssa.Function]bool
+	imprecise bool
+	spec      *pathSpec // nil: the node-function classifiers
 }
 
 // zeroSubjectClass: memory class of the value an absence predicate is applied to.
@@ -348,7 +358,13 @@ func (pe *pathEnum) eventsOfInstr(in ssa.Instruction) []pathItem {
 	default:
 		if name, ok := pe.ca.dispatchCallee(ci); ok {
 			if ci.invoke != nil {
-				out = append(out, pathItem{kind: "CHILD", in: in})
+				var ctxv ssa.Value
+				for _, a := range ci.args() {
+					if av := cvi(a); pe.ca.isCtxVal(av) {
+						ctxv = av
+					}
+				}
+				out = append(out, pathItem{kind: "CHILD", in: in, aux: ctxv})
 			} else {
 				for _, pl := range P.roles.Pipelines {
 					if pl == ci.static {
@@ -357,6 +373,27 @@ func (pe *pathEnum) eventsOfInstr(in ssa.Instruction) []pathItem {
 				}
 				out = append(out, pathItem{kind: "DELEGATE", val: name, in: in})
 			}
+		}
+	}
+	// a child context is created / given its data
+	if ci != nil && (P.isSchemaCtxMethod(ci, "NewSchemaCtx") || P.isSchemaCtxMethod(ci, "NewValidateSchemaCtx")) {
+		if c, ok := in.(*ssa.Call); ok {
+			v := "fresh"
+			for _, a := range ci.args()[1:] {
+				if _, vf := loadOfField(cvi(a)); vf != nil && sameField(vf, P.roles.FData) {
+					v = "same"
+				}
+			}
+			out = append(out, pathItem{kind: "NEWCTX", val: v, in: in, aux: c})
+		}
+	}
+	if st, ok := in.(*ssa.Store); ok {
+		if base, f := fieldVar(st.Addr); f != nil && sameField(f, P.roles.FData) && P.isPtrTo(cv(base).Type(), P.roles.SchemaCtx) {
+			v := "fresh"
+			if _, vf := loadOfField(cvi(st.Val)); vf != nil && sameField(vf, P.roles.FData) {
+				v = "same"
+			}
+			out = append(out, pathItem{kind: "CTX-DATA", val: v, in: in, aux: cv(base)})
 		}
 	}
 	// resets of the catch flags of a context
@@ -431,59 +468,591 @@ func (pe *pathEnum) eventsOfInstr(in ssa.Instruction) []pathItem {
 	return out
 }
 
-// enumerate all decision paths of fn.
-func (P *Prog) nodePaths(fn *ssa.Function) ([]nodePath, bool) {
-	pe := &pathEnum{P: P, fn: fn, ca: P.newCatchAnalysis()}
-	loops := naturalLoops(fn)
-	isHeader := map[*ssa.BasicBlock]bool{}
-	for _, l := range loops {
-		isHeader[l.header] = true
+// ---------------------------------------------------------------------
+// Path engine: enumeration with helper inlining.
+//
+// The enumeration follows static calls to module helpers that matter to the
+// node's decision (they emit an issue, write the destination, call a
+// callback, ... transitively) as if their body stood at the call site:
+// parameters are bound to the actual arguments, phis to the edge the path
+// came in by, and the call's results to the values the callee returned on
+// that path, in a substitution environment that canon() and the root walk
+// consult. A branch whose condition is a constant under that environment (the
+// `ok` result of a helper that returned `nil, false`) or repeats a condition
+// already decided on the path is followed on the feasible side only. So the
+// paths of a node function do not change when part of its body is moved to a
+// helper, which is a behaviour-preserving edit.
+// ---------------------------------------------------------------------
+
+// substEnv is the dynamic-scope substitution of the running enumeration (nil
+// outside one).
+var substEnv map[ssa.Value]ssa.Value
+
+// withoutSubst runs f outside any substitution (for memoised, context-free summaries).
+func withoutSubst(f func()) {
+	saved := substEnv
+	substEnv = nil
+	defer func() { substEnv = saved }()
+	f()
+}
+
+// pathSpec: the classifiers of an enumeration other than the node-function
+// one: which conditions are atoms, which instructions are events, and which
+// module helpers are entered (those containing an atom or event, transitively).
+type pathSpec struct {
+	name      string
+	cond      func(iff *ssa.If) (kind, tv, fv string)
+	events    func(in ssa.Instruction) []pathItem
+	keep      func(fn *ssa.Function) bool // never enter fn (its calls are events of the spec)
+	condAux   func(iff *ssa.If) ssa.Value // optional: a value attached to the atom (resolved on the path)
+	relMemo   map[*ssa.Function]bool
+	inlineAll bool // enter every module helper (small functions whose atoms only show under the substitution)
+}
+
+func (sp *pathSpec) relevant(P *Prog, fn *ssa.Function) bool {
+	if sp.relMemo == nil {
+		sp.relMemo = map[*ssa.Function]bool{}
 	}
-	var walk func(b *ssa.BasicBlock, items []pathItem, visitedHeaders map[*ssa.BasicBlock]int, depth int)
-	walk = func(b *ssa.BasicBlock, items []pathItem, vh map[*ssa.BasicBlock]int, depth int) {
-		if len(pe.paths) > 4000 || depth > 200 {
-			pe.capHit = true
-			return
-		}
-		if isHeader[b] {
-			if vh[b] >= 1 {
-				pe.paths = append(pe.paths, nodePath{items: append([]pathItem{}, items...), end: "LOOP-BACK"})
+	if v, ok := sp.relMemo[fn]; ok {
+		return v
+	}
+	sp.relMemo[fn] = false
+	res := false
+	withoutSubst(func() {
+		eachInstr(fn, func(_ *ssa.BasicBlock, _ int, in ssa.Instruction) {
+			if res {
 				return
 			}
-			nvh := map[*ssa.BasicBlock]int{}
-			for k, v := range vh {
-				nvh[k] = v
+			if len(sp.events(in)) > 0 {
+				res = true
+				return
 			}
-			nvh[b]++
-			vh = nvh
-		}
-		for _, in := range b.Instrs {
-			items = append(items, pe.eventsOfInstr(in)...)
-		}
-		last := b.Instrs[len(b.Instrs)-1]
-		switch t := last.(type) {
-		case *ssa.Return:
-			pe.paths = append(pe.paths, nodePath{items: append([]pathItem{}, items...), end: "RETURN"})
-		case *ssa.Panic:
-			pe.paths = append(pe.paths, nodePath{items: append([]pathItem{}, items...), end: "PANIC"})
-		case *ssa.Jump:
-			walk(b.Succs[0], items, vh, depth+1)
-		case *ssa.If:
-			kind, tv, fv := pe.classifyCond(t)
-			if isHeader[b] && kind == "" {
-				kind, tv, fv = "LOOP", "iter", "done"
+			if iff, ok := in.(*ssa.If); ok {
+				if k, _, _ := sp.cond(iff); k != "" {
+					res = true
+					return
+				}
 			}
-			if kind == "" {
-				kind, tv, fv = "COND", "T", "F"
+			if ci := callOf(in); ci != nil && ci.static != nil && ci.static.Blocks != nil && inModule(funcPkgPath(ci.static)) && !(sp.keep != nil && sp.keep(ci.static)) {
+				if sp.relevant(P, ci.static) {
+					res = true
+				}
 			}
-			walk(b.Succs[0], append(append([]pathItem{}, items...), pathItem{kind: kind, val: tv, in: t}), vh, depth+1)
-			walk(b.Succs[1], append(append([]pathItem{}, items...), pathItem{kind: kind, val: fv, in: t}), vh, depth+1)
-		default:
-			pe.paths = append(pe.paths, nodePath{items: append([]pathItem{}, items...), end: fmt.Sprintf("?%T", last)})
+		})
+	})
+	sp.relMemo[fn] = res
+	return res
+}
+
+type inlFrame struct {
+	fn   *ssa.Function
+	call *ssa.Call
+	blk  *ssa.BasicBlock
+	idx  int
+	vh   map[*ssa.BasicBlock]int
+}
+
+type trailEntry struct {
+	k   ssa.Value
+	old ssa.Value
+	had bool
+}
+
+const maxInlineDepth = 4
+
+func (pe *pathEnum) bind(k, v ssa.Value) {
+	if k == nil || v == nil || k == v {
+		return
+	}
+	old, had := substEnv[k]
+	pe.trail = append(pe.trail, trailEntry{k, old, had})
+	substEnv[k] = v
+}
+
+func (pe *pathEnum) undoTo(mark int) {
+	for len(pe.trail) > mark {
+		e := pe.trail[len(pe.trail)-1]
+		pe.trail = pe.trail[:len(pe.trail)-1]
+		if e.had {
+			substEnv[e.k] = e.old
+		} else {
+			delete(substEnv, e.k)
 		}
 	}
-	walk(fn.Blocks[0], nil, map[*ssa.BasicBlock]int{}, 0)
-	return pe.paths, pe.capHit
+}
+
+func (pe *pathEnum) headersOf(fn *ssa.Function) map[*ssa.BasicBlock]bool {
+	if h, ok := pe.headers[fn]; ok {
+		return h
+	}
+	h := map[*ssa.BasicBlock]bool{}
+	for _, l := range naturalLoops(fn) {
+		h[l.header] = true
+	}
+	if pe.headers == nil {
+		pe.headers = map[*ssa.Function]map[*ssa.BasicBlock]bool{}
+	}
+	pe.headers[fn] = h
+	return h
+}
+
+// definitelyNonNil: v (already canonical) is never nil.
+func definitelyNonNil(v ssa.Value) bool {
+	switch x := v.(type) {
+	case *ssa.Alloc, *ssa.MakeClosure, *ssa.Function, *ssa.MakeMap, *ssa.MakeSlice, *ssa.MakeChan, *ssa.FieldAddr, *ssa.IndexAddr:
+		return true
+	case *ssa.MakeInterface:
+		_ = x
+		return true // a non-nil interface (its dynamic value may be a nil pointer, the interface is not nil)
+	}
+	return false
+}
+
+// evalCond: the value of a branch condition if it is a constant under the
+// current substitution.
+func (pe *pathEnum) evalCond(v ssa.Value) (val bool, known bool) {
+	c := cv(v)
+	if b, ok := constBool(c); ok {
+		return b, true
+	}
+	switch x := c.(type) {
+	case *ssa.UnOp:
+		if x.Op == token.NOT {
+			if b, ok := pe.evalCond(x.X); ok {
+				return !b, true
+			}
+		}
+	case *ssa.BinOp:
+		if x.Op != token.EQL && x.Op != token.NEQ {
+			return false, false
+		}
+		a, b := cv(x.X), cv(x.Y)
+		an, bn := isNilConst(a), isNilConst(b)
+		var eq, ok bool
+		switch {
+		case an && bn:
+			eq, ok = true, true
+		case an && definitelyNonNil(b), bn && definitelyNonNil(a):
+			eq, ok = false, true
+		default:
+			ca, okA := a.(*ssa.Const)
+			cb, okB := b.(*ssa.Const)
+			if okA && okB && ca.Value != nil && cb.Value != nil {
+				eq, ok = ca.Value.ExactString() == cb.Value.ExactString(), true
+			}
+		}
+		if ok {
+			if x.Op == token.NEQ {
+				eq = !eq
+			}
+			return eq, true
+		}
+	}
+	return false, false
+}
+
+// condKey: the identity of a pure condition value, with negations stripped.
+func condKey(v ssa.Value) (ssa.Value, bool) {
+	neg := false
+	c := cv(v)
+	for {
+		if u, ok := c.(*ssa.UnOp); ok && u.Op == token.NOT {
+			neg = !neg
+			c = cv(u.X)
+			continue
+		}
+		break
+	}
+	return c, neg
+}
+
+var anchorNames = map[string]bool{
+	"IsParseZeroValue": true, "IsZeroValue": true, "HasErrored": true, "AddIssue": true, "IssueFromTest": true, "IssueFromCoerce": true,
+	"IssueFromUnknownError": true, "Issue": true, "NewSchemaCtx": true, "NewValidateSchemaCtx": true, "NewExecCtx": true, "Free": true,
+	"TryNewAnyDataProvider": true, "NewMapDataProvider": true,
+}
+
+// isAnchor: calls of fn are recognised as such by the atom and event
+// classifiers, or fn is a unit of the library's own architecture (a node
+// function, pipeline, entry point, context constructor, provider): never inlined.
+func (P *Prog) isAnchorFn(fn *ssa.Function) bool {
+	R := P.roles
+	if anchorNames[fn.Name()] {
+		return true
+	}
+	for _, m := range []map[string]*ssa.Function{R.Process, R.Validate} {
+		for _, f := range m {
+			if f == fn {
+				return true
+			}
+		}
+	}
+	for _, f := range R.Pipelines {
+		if f == fn {
+			return true
+		}
+	}
+	for _, f := range R.EntryPoints {
+		if f == fn {
+			return true
+		}
+	}
+	if sig := fn.Signature; sig.Recv() != nil {
+		n := namedOf(sig.Recv().Type())
+		if sameNamed(n, R.PathB) || sameNamed(n, R.ExecCtx) || P.isProviderType(sig.Recv().Type()) {
+			return true
+		}
+	}
+	return false
+}
+
+// relevant: the body of fn (or of a helper it calls) contains something the
+// classifiers report: an event, a role atom, or a write through a parameter.
+func (P *Prog) relevantFn(fn *ssa.Function) bool {
+	if P.relevantMemo == nil {
+		P.relevantMemo = map[*ssa.Function]bool{}
+	}
+	if v, ok := P.relevantMemo[fn]; ok {
+		return v
+	}
+	P.relevantMemo[fn] = false // recursion guard
+	res := false
+	ca := P.sharedCatchAnalysis()
+	withoutSubst(func() {
+		sub := &pathEnum{P: P, fn: fn, ca: ca, inputModeDone: true}
+		eachInstr(fn, func(_ *ssa.BasicBlock, _ int, in ssa.Instruction) {
+			if res {
+				return
+			}
+			if len(sub.eventsOfInstr(in)) > 0 {
+				res = true
+				return
+			}
+			switch x := in.(type) {
+			case *ssa.If:
+				k, _, _ := sub.classifyCond(x)
+				if k != "" && k != "TYPE-OK" && !strings.HasPrefix(k, "ERR:") {
+					res = true
+				}
+			case *ssa.Store:
+				for _, rt := range P.rootsOf(x.Addr) {
+					if rt.kind == rkParam || rt.kind == rkFreeVar {
+						res = true
+					}
+				}
+			}
+			if ci := callOf(in); ci != nil {
+				switch {
+				case ci.dynamic || ci.invoke != nil:
+					res = true
+				case ci.static != nil && isPkgFunc(ci.static, "reflect"):
+					if _, isW := reflectWriters[ci.static.Name()]; isW {
+						res = true
+					}
+				case ci.static != nil && ci.static.Blocks != nil && inModule(funcPkgPath(ci.static)) && !P.isAnchorFn(ci.static):
+					if P.relevantFn(ci.static) {
+						res = true
+					}
+				}
+			}
+		})
+	})
+	P.relevantMemo[fn] = res
+	return res
+}
+
+// inlinable: the call is followed into its callee.
+func (pe *pathEnum) inlinable(ci *callInfo, stack []inlFrame) *ssa.Function {
+	if ci == nil || ci.static == nil {
+		return nil
+	}
+	if _, isCall := ci.instr.(*ssa.Call); !isCall {
+		return nil
+	}
+	fn := ci.static
+	if fn.Blocks == nil || !inModule(funcPkgPath(fn)) || len(stack) >= maxInlineDepth {
+		return nil
+	}
+	if pe.spec != nil {
+		for _, fr := range stack {
+			if fr.fn == fn {
+				return nil
+			}
+		}
+		if pe.spec.keep != nil && pe.spec.keep(fn) {
+			return nil
+		}
+		if pe.escaped[fn] {
+			pe.imprecise = true
+			return nil
+		}
+		if !pe.spec.inlineAll && !pe.spec.relevant(pe.P, fn) {
+			return nil
+		}
+		return fn
+	}
+	// the instantiation actually called, when the origin has no body of its own
+	if pe.P.isAnchorFn(fn) {
+		return nil
+	}
+	if _, ok := pe.ca.dispatchCallee(ci); ok {
+		return nil
+	}
+	for _, fr := range stack {
+		if fr.fn == fn {
+			return nil
+		}
+	}
+	if pe.escaped[fn] {
+		pe.imprecise = true
+		return nil
+	}
+	if !pe.P.relevantFn(fn) {
+		return nil
+	}
+	return fn
+}
+
+func (pe *pathEnum) endPath(items []pathItem, end string) {
+	pe.paths = append(pe.paths, nodePath{items: append([]pathItem{}, items...), end: end})
+}
+
+// enter block b of the top frame coming from pred (nil at function entry).
+func (pe *pathEnum) enter(stack []inlFrame, pred, b *ssa.BasicBlock, items []pathItem, depth int) {
+	if len(pe.paths) > 4000 || depth > 400 {
+		pe.capHit = true
+		return
+	}
+	top := &stack[len(stack)-1]
+	if pe.headersOf(top.fn)[b] {
+		if top.vh[b] >= 1 {
+			pe.endPath(items, "LOOP-BACK")
+			return
+		}
+		nvh := map[*ssa.BasicBlock]int{}
+		for k, v := range top.vh {
+			nvh[k] = v
+		}
+		nvh[b]++
+		ns := append([]inlFrame{}, stack...)
+		ns[len(ns)-1].vh = nvh
+		stack = ns
+	}
+	if pred != nil {
+		pi := -1
+		for i, p := range b.Preds {
+			if p == pred {
+				pi = i
+			}
+		}
+		if pi >= 0 {
+			// phis are parallel: resolve every edge value before binding any
+			var phis []*ssa.Phi
+			var vals []ssa.Value
+			for _, in := range b.Instrs {
+				phi, ok := in.(*ssa.Phi)
+				if !ok {
+					break
+				}
+				if pi < len(phi.Edges) {
+					phis = append(phis, phi)
+					vals = append(vals, cv(phi.Edges[pi]))
+				}
+			}
+			for i, phi := range phis {
+				pe.bind(phi, vals[i])
+			}
+		}
+	}
+	pe.walk(stack, b, 0, items, depth)
+}
+
+func (pe *pathEnum) walk(stack []inlFrame, b *ssa.BasicBlock, from int, items []pathItem, depth int) {
+	for i := from; i < len(b.Instrs)-1; i++ {
+		in := b.Instrs[i]
+		if _, isPhi := in.(*ssa.Phi); isPhi {
+			continue
+		}
+		var ev []pathItem
+		if pe.spec != nil {
+			ev = pe.spec.events(in)
+		} else {
+			ev = pe.eventsOfInstr(in)
+		}
+		if len(ev) == 0 {
+			if callee := pe.inlinable(callOf(in), stack); callee != nil {
+				call := in.(*ssa.Call)
+				args := call.Call.Args
+				for k, p := range callee.Params {
+					if k < len(args) {
+						pe.bind(p, cv(args[k]))
+					}
+				}
+				pe.inlined[callee] = true
+				ns := append(append([]inlFrame{}, stack...), inlFrame{fn: callee, call: call, blk: b, idx: i, vh: map[*ssa.BasicBlock]int{}})
+				pe.enter(ns, nil, callee.Blocks[0], items, depth+1)
+				return
+			}
+		}
+		items = append(items, ev...)
+	}
+	last := b.Instrs[len(b.Instrs)-1]
+	switch t := last.(type) {
+	case *ssa.Return:
+		if len(stack) == 1 {
+			pe.endPath(items, "RETURN")
+			return
+		}
+		fr := stack[len(stack)-1]
+		res, ok := retVals(t)
+		if ok {
+			if len(res) == 1 {
+				v := cv(res[0])
+				pe.bind(fr.call, v)
+				pe.noteEscape(fr.fn, v)
+			} else if len(res) > 1 {
+				if refs := fr.call.Referrers(); refs != nil {
+					for _, rf := range *refs {
+						if ex, ok := rf.(*ssa.Extract); ok && ex.Index < len(res) {
+							v := cv(res[ex.Index])
+							pe.bind(ex, v)
+							pe.noteEscape(fr.fn, v)
+						}
+					}
+				}
+			}
+		}
+		pe.walk(stack[:len(stack)-1], fr.blk, fr.idx+1, items, depth+1)
+	case *ssa.Panic:
+		pe.endPath(items, "PANIC")
+	case *ssa.Jump:
+		pe.enter(stack, b, b.Succs[0], items, depth+1)
+	case *ssa.If:
+		if val, known := pe.evalCond(t.Cond); known {
+			k := 0
+			if !val {
+				k = 1
+			}
+			pe.enter(stack, b, b.Succs[k], items, depth+1)
+			return
+		}
+		key, neg := condKey(t.Cond)
+		if prev, seen := pe.decided[key]; seen {
+			k := 0
+			if prev == neg { // cond value = prev XOR neg
+				k = 1
+			}
+			pe.enter(stack, b, b.Succs[k], items, depth+1)
+			return
+		}
+		var kind, tv, fv string
+		if pe.spec != nil {
+			kind, tv, fv = pe.spec.cond(t)
+		} else {
+			kind, tv, fv = pe.classifyCond(t)
+		}
+		top := stack[len(stack)-1]
+		if pe.headersOf(top.fn)[b] && kind == "" {
+			kind, tv, fv = "LOOP", "iter", "done"
+		}
+		if kind == "" {
+			kind, tv, fv = "COND", "T", "F"
+		}
+		for k := 0; k < 2; k++ {
+			mark := len(pe.trail)
+			v := tv
+			if k == 1 {
+				v = fv
+			}
+			// the value of the stripped condition on this side
+			pe.decided[key] = (k == 0) != neg
+			atom := pathItem{kind: kind, val: v, in: t}
+			if pe.spec != nil && pe.spec.condAux != nil && kind != "COND" {
+				atom.aux = pe.spec.condAux(t)
+			}
+			pe.enter(stack, b, b.Succs[k], append(append([]pathItem{}, items...), atom), depth+1)
+			delete(pe.decided, key)
+			pe.undoTo(mark)
+		}
+	default:
+		pe.endPath(items, fmt.Sprintf("?%T", last))
+	}
+}
+
+// noteEscape: a value of the callee's own frame flows to the caller; the
+// callee is then not entered a second time on the path (its parameters and
+// phis would be rebound under that value).
+func (pe *pathEnum) noteEscape(fn *ssa.Function, v ssa.Value) {
+	switch x := v.(type) {
+	case *ssa.Const, *ssa.Global, *ssa.Function:
+		return
+	case *ssa.Parameter:
+		if x.Parent() == fn {
+			pe.escaped[fn] = true
+		}
+	case ssa.Instruction:
+		if x.Parent() == fn {
+			pe.escaped[fn] = true
+		}
+	}
+}
+
+// enumerate all decision paths of fn.
+func (P *Prog) nodePaths(fn *ssa.Function) ([]nodePath, bool) {
+	if m, ok := P.nodePathsMemo[fn]; ok {
+		return m.paths, m.capHit
+	}
+	res := P.enumPaths(fn, nil)
+	if P.nodePathsMemo == nil {
+		P.nodePathsMemo = map[*ssa.Function]*pathResult{}
+	}
+	P.nodePathsMemo[fn] = res
+	return res.paths, res.capHit
+}
+
+// unitPaths: the decision paths of a code unit of a node function, under the
+// unit's substitution (a helper's parameters bound to the call site's actuals).
+func (P *Prog) unitPaths(u *nodeUnit) ([]nodePath, bool) {
+	if len(u.env) == 0 {
+		return P.nodePaths(u.fn)
+	}
+	res := P.enumPaths(u.fn, u.env)
+	return res.paths, res.capHit
+}
+
+func (P *Prog) enumPaths(fn *ssa.Function, env map[ssa.Value]ssa.Value) *pathResult {
+	return P.enumPathsSpec(fn, env, nil)
+}
+
+// enumPathsSpec enumerates the decision paths of fn with the given classifiers.
+func (P *Prog) enumPathsSpec(fn *ssa.Function, env map[ssa.Value]ssa.Value, spec *pathSpec) *pathResult {
+	pe := &pathEnum{P: P, fn: fn, ca: P.sharedCatchAnalysis(), decided: map[ssa.Value]bool{}, escaped: map[*ssa.Function]bool{}, inlined: map[*ssa.Function]bool{}, spec: spec}
+	saved := substEnv
+	substEnv = map[ssa.Value]ssa.Value{}
+	for k, v := range env {
+		substEnv[k] = v
+	}
+	defer func() { substEnv = saved }()
+	pe.enter([]inlFrame{{fn: fn, vh: map[*ssa.BasicBlock]int{}}}, nil, fn.Blocks[0], nil, 0)
+	var inl []string
+	for f := range pe.inlined {
+		inl = append(inl, fname(f))
+	}
+	sort.Strings(inl)
+	return &pathResult{paths: pe.paths, capHit: pe.capHit || pe.imprecise, inlined: inl}
+}
+
+type pathResult struct {
+	paths   []nodePath
+	capHit  bool
+	inlined []string
+}
+
+func (P *Prog) sharedCatchAnalysis() *catchAnalysis {
+	if P.catchMemo == nil {
+		withoutSubst(func() { P.catchMemo = P.newCatchAnalysis() })
+	}
+	return P.catchMemo
 }
 
 // isFactoryValue: v is a func value asserted out of ctx.Data.
